@@ -124,13 +124,14 @@ def build_struct(content, missing_style="null", rng=None):
     ty, rows = content["ty"], content["rows"]
     kids = []
     hidden_len = [rng.randint(1, 2) if (rng and missing_style == "hidden") else 0 for _ in rows]
-    for n, t in ty:
+    for j, (n, t) in enumerate(ty):
         lists = []
         for i, r in enumerate(rows):
             if r is None:
-                if missing_style == "null":
+                if missing_style == "null" or (missing_style == "mixed" and j % 2 == 0):
                     lists.append(None)
-                elif missing_style == "empty":
+                elif missing_style in ("empty", "mixed"):
+                    # "mixed": under one missing row some fields hold a null list, the others an empty one
                     lists.append([])
                 else:
                     lists.append([rand_cell(rng, t) for _ in range(hidden_len[i])])
@@ -247,8 +248,21 @@ def lay_lib_slice_view(content, rng, style):
     return out.array.chunked_array
 
 
+def lay_parquet(content, rng, style):
+    """written to a parquet file and read back with plain pyarrow: the same rows, stored with the Arrow details of
+    that provenance (the list child is named 'element', chunks follow the row groups)"""
+    import io
+    import pyarrow.parquet as pq
+    ca = lay_fresh(content, rng, style)
+    buf = io.BytesIO()
+    pq.write_table(pa.table({"c": ca}), buf, row_group_size=rng.choice([1, 2, 1000]))
+    buf.seek(0)
+    return pq.read_table(buf)["c"]
+
+
 LAYOUTS = {
     "fresh": lay_fresh,
+    "parquet": lay_parquet,
     "rebuilt_slice": lay_rebuilt_slice,
     "lib_slice_view": lay_lib_slice_view,
     "slice": lay_slice,
@@ -259,13 +273,13 @@ LAYOUTS = {
     "filter": lay_filter,
     "pickle": lay_pickle,
 }
-STYLES = ["null", "empty", "hidden"]
+STYLES = ["null", "empty", "hidden", "mixed"]
 
 
 def realise(content, rng, layout=None, style=None, allow_hidden=True):
     """-> (ChunkedArray, layout name, missing style)."""
     layout = layout or rng.choice(list(LAYOUTS))
-    styles = STYLES if allow_hidden else STYLES[:2]
+    styles = STYLES if allow_hidden else [x for x in STYLES if x != "hidden"]
     style = style or rng.choice(styles)
     ca = LAYOUTS[layout](content, rng, style)
     return ca, layout, style
